@@ -93,7 +93,7 @@ Variable Q : quirks.
 Lemma visit_lambda : forall f args body,
   visit Q f (N KLambda (NCons args (NCons body NNil))) =
   union (fin_noniso (visit_args_annot Q (enter f false false) args))
-        (fin_iso (union (fin_noniso (visit_args_decl Q (enter f false false) args))
+        (fin_iso (q_nlhide Q) (union (fin_noniso (visit_args_decl Q (enter f false false) args))
                         (fin_noniso (visit Q (enter f false false) body)))).
 Proof. reflexivity. Qed.
 Lemma visit_def : forall f n decos rets args body,
@@ -102,13 +102,13 @@ Lemma visit_def : forall f n decos rets args body,
   union (fin_noniso (union (visit Q f' decos)
                     (union (visit Q (with_ann f') rets)
                     (union (visit_args_annot Q f' args) (bind_name n)))))
-        (fin_iso (union (fin_noniso (visit_args_decl Q f' args)) (fin_noniso (visit Q f' body)))).
+        (fin_iso (q_nlhide Q) (union (fin_noniso (visit_args_decl Q f' args)) (fin_noniso (visit Q f' body)))).
 Proof. reflexivity. Qed.
 Lemma visit_class : forall f n decos bases body,
   visit Q f (N (KClass n) (NCons decos (NCons bases (NCons body NNil)))) =
   let f' := enter f true false in
   union (fin_noniso (union (visit Q f' decos) (union (bind_name n) (visit Q f' bases))))
-        (fin_iso (union (visit Q f' decos) (union (visit Q f' bases) (visit Q f' body)))).
+        (fin_iso (q_nlhide Q) (union (visit Q f' decos) (union (visit Q f' bases) (visit Q f' body)))).
 Proof. reflexivity. Qed.
 Lemma visit_comp : forall f kg gens elts,
   visit Q f (N KComp (NCons (N kg gens) (NCons elts NNil))) =
@@ -255,8 +255,8 @@ Qed.
 Lemma C2_fin : forall s F, C2 s F -> C2 (fin_noniso s) F.
 Proof. intros s F [b [g [n o]]]. repeat split; simpl; auto; apply o. Qed.
 
-Lemma C2_fin_iso : forall s, C2 (fin_iso s) [].
-Proof. intros s. repeat split; simpl; auto; discriminate. Qed.
+Lemma C2_fin_iso : forall h s, C2 (fin_iso h s) [].
+Proof. intros h s. repeat split; simpl; auto; discriminate. Qed.
 
 Lemma C2_nil_r : forall s F, C2 s F -> C2 s (F ++ []).
 Proof. intros; rewrite app_nil_r; assumption. Qed.
@@ -446,8 +446,8 @@ Qed.
 Lemma C3_fin : forall s F, C3 s F -> C3 (fin_noniso s) F.
 Proof. intros s F [b [g n]]. repeat split; simpl; auto. Qed.
 
-Lemma C3_fin_iso : forall s, C3 (fin_iso s) [].
-Proof. intros s. repeat split; simpl; auto. Qed.
+Lemma C3_fin_iso : forall h s, C3 (fin_iso h s) [].
+Proof. intros h s. repeat split; simpl; auto. Qed.
 
 Definition rel (x : fact) : bool :=
   match x with FBind _ | FDeclG _ | FDeclN _ | FExempt _ | FComp _ => true | _ => false end.
@@ -854,6 +854,170 @@ Proof.
     destruct Hf as [X1 [X2 _]]. simpl. rewrite X1, X2. simpl. rewrite Nat.eqb_refl. reflexivity.
   - destruct tg as [[] ch]; simpl in H; try discriminate. destruct c; simpl in H; discriminate.
   - destruct tg as [[] ch]; simpl in H; try discriminate. destruct c; simpl in H; discriminate.
+Qed.
+
+(* ---------------------------------------------------------------- nonlocal declarations are reads *)
+(* a name declared nonlocal in the block is in read and in nonlocals of what the node contributes *)
+Definition N3 (s : scope) (F : list fact) : Prop :=
+  forall n, exemptf n F = false -> memf (FDeclN n) F = true ->
+    memq (QS n) (rd s) = true /\ memq (QS n) (nl s) = true.
+
+Lemma N3_nob : forall s F, nob F -> N3 s F.
+Proof. intros s F H n _ Hn. destruct (H n) as [_ [_ X]]. rewrite X in Hn. discriminate. Qed.
+
+Lemma N3_union : forall s1 s2 F1 F2, N3 s1 F1 -> N3 s2 F2 -> N3 (union s1 s2) (F1 ++ F2).
+Proof.
+  intros s1 s2 F1 F2 H1 H2 n He Hn. rewrite exemptf_app in He. apply orb_false_iff in He. destruct He as [E1 E2].
+  rewrite memf_app in Hn. simpl. rewrite !memq_app. apply orb_true_iff in Hn. destruct Hn as [Hn|Hn].
+  - destruct (H1 n E1 Hn) as [a b]. rewrite a, b. auto.
+  - destruct (H2 n E2 Hn) as [a b]. rewrite a, b, !orb_true_r. auto.
+Qed.
+
+Lemma N3_fin : forall s F, N3 s F -> N3 (fin_noniso s) F.
+Proof. intros s F H n He Hn. exact (H n He Hn). Qed.
+
+Lemma N3_ext : forall s F G, (forall x, rel x = true -> memf x F = memf x G) -> N3 s F -> N3 s G.
+Proof.
+  intros s F G E H n He Hn. unfold exemptf in He.
+  rewrite <- (E (FExempt n) eq_refl), <- (E (FComp n) eq_refl) in He. rewrite <- (E (FDeclN n) eq_refl) in Hn.
+  exact (H n He Hn).
+Qed.
+
+Lemma N3_handler : forall nm s F, N3 s F ->
+  N3 (fin_handler nm s) (match nm with Some m => FBind m :: FExempt m :: F | None => F end).
+Proof.
+  intros nm s F H. destruct nm as [m|]; intros n He Hn.
+  - unfold exemptf in He. simpl in He, Hn.
+    destruct (Nat.eqb n m) eqn:E; simpl in He; [discriminate|].
+    destruct (H n He Hn) as [a b]. simpl. rewrite memq_minus, a, b, memq_single, E. auto.
+  - destruct (H n He Hn) as [a b]. simpl. rewrite memq_minus, a, b. auto.
+Qed.
+
+Lemma nob_facts_decls : forall decls, decls_ok decls = true -> nob (facts_decls Q decls).
+Proof.
+  intros decls H. destruct (cp_decls decls (with_annonly fl0) eq_refl H) as [_ [_ [_ o]]]. exact o.
+Qed.
+
+Lemma N3_args_annot : forall f ka dflt decls,
+  N3 (visit Q f dflt) (facts Q dflt) -> decls_ok decls = true ->
+  N3 (visit_args_annot Q f (N ka (NCons dflt (NCons (N KGen decls) NNil))))
+     (facts_args Q (N ka (NCons dflt (NCons (N KGen decls) NNil)))
+      ++ leak Q (N ka (NCons dflt (NCons (N KGen decls) NNil)))).
+Proof.
+  intros f ka dflt decls H Hk. rewrite visit_args_annot_eq, facts_args_eq, visit_gen.
+  assert (X : N3 (union (visit Q f dflt) (visit_list Q (with_annonly f) decls))
+                 (facts Q dflt ++ annot_facts Q (facts_decls Q decls))).
+  { apply N3_union; [assumption|]. apply N3_nob, nob_annot, nob_facts_decls; assumption. }
+  intros n He Hn. rewrite exemptf_app in He. apply orb_false_iff in He. destruct He as [E1 _].
+  rewrite memf_app in Hn. destruct (nob_leak (N ka (NCons dflt (NCons (N KGen decls) NNil))) n) as [_ [_ L]].
+  rewrite L, orb_false_r in Hn. exact (X n E1 Hn).
+Qed.
+
+Lemma n_visit : forall t f, wf t = true -> N3 (visit Q f t) (facts Q t)
+with n_list : forall ts f, wf_list ts = true -> N3 (visit_list Q f ts) (facts_list Q ts).
+Proof.
+  - intros t f H. destruct t as [k ch]. destruct k; simpl in H; try discriminate.
+    + rewrite visit_gen. apply n_list; assumption.
+    + rewrite visit_stmt. apply N3_fin, n_list; assumption.
+    + intros m _ Hm. destruct c; simpl in Hm; discriminate.
+    + rewrite visit_attr. change (facts Q (N (KAttr a c) ch)) with (facts_list Q ch).
+      rewrite <- (app_nil_r (facts_list Q ch)). apply N3_union; [apply n_list; assumption | apply N3_nob, nob_nil].
+    + rewrite visit_sub. change (facts Q (N (KSub c) ch)) with (facts_list Q ch).
+      rewrite <- (app_nil_r (facts_list Q ch)). apply N3_union; [apply n_list; assumption | apply N3_nob, nob_nil].
+    + destruct ch as [|tg [|v [|]]]; try discriminate.
+      apply andb_true_iff in H. destruct H as [H1 H2].
+      rewrite visit_aug, facts_aug. apply N3_fin.
+      apply (N3_ext _ (facts Q tg ++ facts Q v)).
+      { intros x Hx. rewrite !memf_app. destruct tg as [[] ?]; simpl; try reflexivity.
+        destruct c; simpl; try reflexivity. destruct x; simpl in *; try reflexivity; discriminate. }
+      apply N3_union; apply n_visit; assumption.
+    + destruct ch as [|tg [|v [|a [|]]]]; try discriminate.
+      apply andb_true_iff in H. destruct H as [H H3]. apply andb_true_iff in H. destruct H as [H1 H2].
+      rewrite visit_ann, facts_ann. apply N3_fin.
+      apply N3_union; [apply n_visit; assumption|]. apply N3_union; apply n_visit; assumption.
+    + intros m _ Hm. change (facts Q (N (KGlobal ns) ch)) with (map FDeclG ns) in Hm.
+      rewrite memf_map in Hm by (intro; reflexivity). discriminate.
+    + rewrite visit_nonlocal. change (facts Q (N (KNonlocal ns) ch)) with (map FDeclN ns).
+      intros m _ Hm. rewrite (memf_map_same FDeclN) in Hm by (intro; reflexivity).
+      simpl. rewrite !memq_names, Hm. auto.
+    + rewrite visit_alias. change (facts Q (N (KAlias n) ch)) with ([FBind n; FWrite n] ++ facts_list Q ch).
+      apply (N3_ext _ (facts_list Q ch ++ [FBind n; FWrite n])).
+      { intros x _. rewrite !memf_app. btauto. }
+      apply N3_union; [apply n_list; assumption|]. intros m _ Hm; simpl in Hm; discriminate.
+    + destruct ch as [|tst r]; try discriminate.
+      apply andb_true_iff in H. destruct H as [H1 H2].
+      rewrite visit_if. change (facts Q (N KIf (NCons tst r))) with (facts Q tst ++ facts_list Q r).
+      apply N3_union; [apply N3_fin, n_visit | apply n_list]; assumption.
+    + destruct ch as [|tst r]; try discriminate.
+      apply andb_true_iff in H. destruct H as [H1 H2].
+      rewrite visit_while. change (facts Q (N KWhile (NCons tst r))) with (facts Q tst ++ facts_list Q r).
+      apply N3_union; [apply N3_fin, n_visit | apply n_list]; assumption.
+    + destruct ch as [|tg [|it r]]; try discriminate.
+      apply andb_true_iff in H. destruct H as [H H3]. apply andb_true_iff in H. destruct H as [H1 H2].
+      rewrite visit_for, facts_for.
+      apply (N3_ext _ ((facts Q tg ++ facts Q it) ++ (facts Q tg ++ facts_list Q r))).
+      { intros x _. rewrite !memf_app. btauto. }
+      apply N3_union; [apply N3_fin, N3_union; apply n_visit; assumption|].
+      apply N3_union; [apply N3_fin, n_visit | apply n_list]; assumption.
+    + rewrite visit_with. apply N3_fin, n_list; assumption.
+    + rewrite visit_block. apply N3_fin, n_list; assumption.
+    + rewrite visit_handler.
+      replace (facts Q (N (KHandler nm) ch))
+        with (match nm with Some m => FBind m :: FExempt m :: facts_list Q ch | None => facts_list Q ch end)
+        by (destruct nm; reflexivity).
+      apply N3_handler, n_list; assumption.
+    + destruct ch as [|decos [|rets [|[ka [|dflt [|[kd decls] [|]]]] [|body [|]]]]]; simpl in H; try discriminate;
+        destruct kd; simpl in H; try discriminate.
+      repeat (apply andb_true_iff in H; let X := fresh "W" in destruct H as [H X]).
+      rewrite visit_def, facts_def. cbv zeta.
+      set (f' := enter f false (fl_pcls f && Nat.eqb n INIT)).
+      rewrite <- (app_nil_r (FBind n :: _)).
+      apply N3_union; [|apply N3_nob, nob_nil]. apply N3_fin.
+      apply (N3_ext _ (facts Q decos ++ facts Q rets
+                        ++ (facts_args Q (N ka (NCons dflt (NCons (N KGen decls) NNil)))
+                            ++ leak Q (N ka (NCons dflt (NCons (N KGen decls) NNil)))) ++ [FBind n; FWrite n])).
+      { intros x _. rewrite ?memf_cons, ?memf_app, ?memf_cons, ?memf_app, ?memf_cons, ?memf_nil. btauto. }
+      apply N3_union; [apply n_visit; assumption|].
+      apply N3_union; [apply n_visit; assumption|].
+      apply N3_union; [|intros m' _ Hm; simpl in Hm; discriminate].
+      apply N3_args_annot; [apply n_visit|]; assumption.
+    + destruct ch as [|[ka [|dflt [|[kd decls] [|]]]] [|body [|]]]; simpl in H; try discriminate;
+        destruct kd; simpl in H; try discriminate.
+      repeat (apply andb_true_iff in H; let X := fresh "W" in destruct H as [H X]).
+      rewrite visit_lambda, facts_lambda.
+      rewrite <- (app_nil_r (_ ++ leak Q _)).
+      apply N3_union; [|apply N3_nob, nob_nil]. apply N3_fin.
+      apply N3_args_annot; [apply n_visit|]; assumption.
+    + destruct ch as [|decos [|bases [|body [|]]]]; try discriminate.
+      repeat (apply andb_true_iff in H; let X := fresh "W" in destruct H as [H X]).
+      rewrite visit_class, facts_class. cbv zeta.
+      rewrite <- (app_nil_r (FBind n :: _)).
+      apply N3_union; [|apply N3_nob, nob_nil]. apply N3_fin.
+      apply (N3_ext _ (facts Q decos ++ [FBind n; FWrite n] ++ facts Q bases)).
+      { intros x _. rewrite ?memf_cons, ?memf_app, ?memf_cons, ?memf_app, ?memf_cons, ?memf_nil. btauto. }
+      apply N3_union; [apply n_visit; assumption|].
+      apply N3_union; [intros m' _ Hm; simpl in Hm; discriminate | apply n_visit; assumption].
+    + apply N3_nob. destruct (cp_visit (N KComp ch) f H) as [_ [_ [_ o]]]. exact o.
+  - intros ts f H. destruct ts as [|t r].
+    + apply N3_nob, nob_nil.
+    + simpl in H. apply andb_true_iff in H. destruct H as [H1 H2].
+      rewrite visit_cons, facts_cons. apply N3_union; [apply n_visit | apply n_list]; assumption.
+Qed.
+
+(* Scope.finalize of the function scope of a def (isolated): with read - (bound - nonlocals) every name the
+   body declares nonlocal reaches the scope the def statement is written in *)
+Lemma nonlocal_exported : forall f m decos rets ka dflt decls body n,
+  q_nlhide Q = false -> wf body = true ->
+  exempt Q body n = false -> declared_nonlocal Q body n = true ->
+  memq (QS n) (rd (visit Q f (N (KDef m) (NCons decos (NCons rets
+        (NCons (N ka (NCons dflt (NCons (N KGen decls) NNil))) (NCons body NNil))))))) = true.
+Proof.
+  intros f m decos rets ka dflt decls body n Hq Hb He Hn.
+  rewrite visit_def. cbv zeta. set (f' := enter f false (fl_pcls f && Nat.eqb m INIT)).
+  destruct (n_visit body f' Hb n He Hn) as [a b].
+  rewrite Hq. simpl rd. rewrite memq_app. apply orb_true_iff. right.
+  rewrite memq_minus, memq_minus. simpl. rewrite !memq_app, a, b, !orb_true_r. simpl.
+  rewrite andb_false_r. reflexivity.
 Qed.
 
 End Proofs.
